@@ -65,6 +65,31 @@ func genC02(tier string, r *rng, emit func(string)) {
 			}
 		}
 	}
+	// (1a) EVERY (start, end, step) triple around the axis, on each axis of small tensors: which ones are
+	// refused and what the accepted ones select
+	for _, sh := range [][]int{{3}, {2, 3}, {3, 2}, {2, 2, 3}} {
+		for ax := range sh {
+			d := sh[ax]
+			for st := -2; st <= d+1; st++ {
+				for en := -2; en <= d+2; en++ {
+					for step := -1; step <= 3; step++ {
+						parts := make([]string, len(sh))
+						for i := range parts {
+							parts[i] = "_"
+							if i != ax && i == (ax+1)%len(sh) && sh[i] > 1 {
+								parts[i] = "1.2.0" // a single index on a neighbouring axis
+							}
+						}
+						parts[ax] = fmt.Sprintf("%d.%d.%d", st, en, step)
+						emit(fmt.Sprintf("prog f64 new:rm:%s:0;slice:0:%s", fints(sh), strings.Join(parts, "/")))
+						if step == 0 || (st >= 0 && en <= d) {
+							emit(fmt.Sprintf("prog i new:cm:%s:0;slice:0:%s", fints(sh), strings.Join(parts, "/")))
+						}
+					}
+				}
+			}
+		}
+	}
 	// (1b) Narrow, package-level and method form, every axis / start / length of small shapes
 	for _, sh := range [][]int{{4}, {3, 4}, {2, 3, 2}} {
 		for _, order := range []string{"rm", "cm"} {
